@@ -160,7 +160,9 @@ func c16Worker(in, out string) {
 	w := mon.OpenWorker(in, out)
 	for i := w.From; i < w.To; i++ {
 		w.Begin(i)
-		c16Round(w, i)
+		// the whole round is watched as well: a wedged hub can park the driver itself (a dial that is never
+		// registered, a server-side Close waiting for the hub) at a step that has no watchdog of its own
+		w.Watch(fmt.Sprintf("round %d does not finish", i), 240*time.Second, func() { c16Round(w, i) })
 	}
 	w.Done()
 }
@@ -180,8 +182,28 @@ func c16Round(w *mon.W, round int) {
 	x.cfgDesc = fmt.Sprintf("MaxConnectionsPerHub=%d MaxConnectionsPerRoom=%d MessageQueueSize=%d MessageQueueStrategy=%s WriteWait=3s", x.maxConn, x.maxRoom, cfg.MessageQueueSize, cfg.MessageQueueStrategy)
 	x.srv = websocket.NewServer(cfg)
 	x.hub = x.srv.GetHub()
+	// event handlers query the hub the way `ws.get_connection_count()` / `ws.get_rooms()` in an `on connect` or
+	// `on disconnect` block do: a handler invoked with a hub lock held would wait for itself
 	x.srv.OnConnect(func(c *websocket.Connection) error {
 		c.Send([]byte("hello:" + c.ID))
+		if x.hub.GetConnectionCount() < 0 {
+			return nil
+		}
+		x.hub.GetConnection(c.ID)
+		w.Count("hub_queries_from_connect_handlers", 1)
+		return nil
+	})
+	x.srv.OnDisconnect(func(c *websocket.Connection) error {
+		n := x.hub.GetConnectionCount()
+		for _, o := range x.hub.GetConnections() {
+			_ = o.GetRooms()
+		}
+		if _, still := x.hub.GetConnection(c.ID); still && n == 0 {
+			return nil
+		}
+		_ = x.hub.GetRoomManager().GetRoomNames()
+		_ = c.GetRooms()
+		w.Count("hub_queries_from_disconnect_handlers", 1)
 		return nil
 	})
 	// handlers that act from inside the hub loop (this is where compiled `on message` blocks run)
@@ -198,6 +220,16 @@ func c16Round(w *mon.W, round int) {
 			ctx.Conn.LeaveRoom(strings.TrimPrefix(cmd, "leave:"))
 		case cmd == "echo":
 			ctx.Conn.Send([]byte("echo"))
+		case cmd == "stats":
+			// a message handler reading hub and room state (ws.get_connection_count(), ws.get_rooms(), room sizes)
+			n := x.hub.GetConnectionCount()
+			for _, name := range x.hub.GetRoomManager().GetRoomNames() {
+				if rm, ok := x.hub.GetRoomManager().GetRoom(name); ok {
+					n += rm.Size()
+				}
+			}
+			w.Count("hub_queries_from_message_handlers", 1)
+			ctx.Conn.Send([]byte(fmt.Sprintf("stats:%d", n)))
 		}
 		return nil
 	})
@@ -411,7 +443,7 @@ func c16Round(w *mon.W, round int) {
 								c.srv.Send([]byte(id)) // may race with a disconnect of c: must not crash
 							}
 						case p < 84:
-							what := []string{"hi", "echo", "close-me", "leave:" + room}[r.Intn(4)]
+							what := []string{"hi", "echo", "close-me", "leave:" + room, "stats"}[r.Intn(5)]
 							if what == "close-me" {
 								if !x.mayClose(c) {
 									break
@@ -766,6 +798,8 @@ func (x *c16World) deliveries(wit func(map[string]interface{}) map[string]interf
 	}
 }
 
+var c16Hangs atomic.Int64
+
 func checkC16(tier string) {
 	r := mon.New("C16", tier, "exploration")
 	r.Rule = "rounds of 2-8 real WebSocket clients against websocket.NewServer(cfg) with MaxConnectionsPerHub in {3,5,10000}, MaxConnectionsPerRoom in {1,2,1000}, queue size in {4,64,256}; 3 phases x 8 goroutines x 30 operations (join, leave, hub- and manager-level room broadcast, hub broadcast, direct send, client message, client close, server-side close, reads) on 1-3 rooms; after each phase a marker broadcast establishes quiescence and the invariants are evaluated; distinct = round; non-trivial = >= 100 operations"
@@ -781,7 +815,8 @@ func checkC16(tier string) {
 					}
 				}
 				r.Violate("no-progress:"+site, "the hub made no progress: "+hang.Desc+"; both goroutine dumps (3 s apart) show a goroutine parked in "+site, map[string]interface{}{"round": i, "stacks": clipN(c16Relevant(hang.Stacks[1]), 3000)})
-				return true
+				// a tree that wedges in most rounds: two witnesses per build are enough, the rest would only burn watchdog time
+				return c16Hangs.Add(1) <= 2
 			}
 			cls := co.Death
 			ex := mon.PanicExcerpt(co.Tail, 16)
